@@ -12,6 +12,7 @@ import os
 import subprocess
 import sys
 import threading
+import time
 
 from . import tlc
 from .common import VERIF, MachineryError, scratch, seed
@@ -22,7 +23,8 @@ def spec_to_code(report, module, cfg_text, replayer, opts=(), *, workers_tlc=12,
     owners: property ids whose clauses are verdicts of this check (others are notes).
     Replay workers are separate interpreters started with subprocess (no fork of
     this multi-threaded process), fed through pipes."""
-    env = dict(os.environ, PYTHONHASHSEED="0", PYTHONPATH=VERIF)
+    env = dict(os.environ, PYTHONHASHSEED="0", PYTHONPATH=os.pathsep.join(
+        [VERIF] + [p for p in [os.environ.get("VERIF_EXTRA_PYTHONPATH")] if p]))   # (tools/coverage_of_repo.sh)
     procs = [subprocess.Popen([sys.executable, "-m", "harness.worker", replayer, json.dumps(list(opts))],
                               cwd=VERIF, env=env, stdin=subprocess.PIPE, stdout=subprocess.PIPE,
                               text=True, bufsize=1 << 16)
@@ -54,6 +56,12 @@ def spec_to_code(report, module, cfg_text, replayer, opts=(), *, workers_tlc=12,
         turn[0] += 1
         p.stdin.write(line)
 
+    progress = os.environ.get("VERIF_PROGRESS")
+    if progress:
+        head = " ".join(l.strip() for l in cfg_text.splitlines() if "<-" in l or " = " in l or l.startswith("SPEC"))
+        print(f"[progress] {module} {'simulate ' + str(simulate) if simulate else 'exhaustive'}: {head[:300]}",
+              file=sys.stderr, flush=True)
+        t_start = time.time()
     try:
         if simulate:
             # random genuine behaviours of the specification (no state merging: every emitted
@@ -77,6 +85,9 @@ def spec_to_code(report, module, cfg_text, replayer, opts=(), *, workers_tlc=12,
                 p.wait(timeout=60)
             except Exception:  # noqa
                 p.kill()
+    if progress:
+        print(f"[progress]   -> {round(time.time() - t_start)} s, states={getattr(res, 'distinct', None)} "
+              f"generated={getattr(res, 'generated', None)} replayed={agg['total']}", file=sys.stderr, flush=True)
     if any(p.returncode != 0 for p in procs):
         raise MachineryError(f"a replay worker failed (exit codes {[p.returncode for p in procs]})")
     for sample in agg["samples"]:
